@@ -1,6 +1,6 @@
 # C11 - thread pool: every submission runs once on a worker or is cancelled once
 import re
-from ..core import norm, relloc, live, calls, evs, Broken, value_origin, Tracer, fmt_trace, rooted, has_back_edge, cond_event, efield
+from ..core import var_def, tests, norm, relloc, live, calls, evs, Broken, value_origin, Tracer, fmt_trace, rooted, has_back_edge, cond_event, efield
 from .. import locks
 from ..rules import *
 from .tables import GUARDED
@@ -38,9 +38,19 @@ def _enqueued_lambdas(db):
     for f in db.all_instances():
         if not f['nname'].startswith(TP):
             continue
+        lam = {e['fn_key']: e for e in f.events() if e.k == 'lambda'}
         for e in f.events():
             if e.k == 'lambda' and re.search(r'function_base|thread_pool::run_detached|thread_pool::enqueue', e.get('use') or ''):
                 out.append((f, e))
+            if e.k == 'call' and norm(e.get('callee') or '') in ('cocls::thread_pool::run_detached', 'cocls::thread_pool::enqueue'):
+                # a named closure: auto task = [...]{...}; run_detached(std::move(task));
+                for a in e.get('args') or []:
+                    m_ = re.fullmatch(r'(?:move|forward)?\(?local:(\w+)\)?', a.get('path') or '')
+                    if m_:
+                        d_ = var_def(f, m_.group(1), e.get('loc'))
+                        ini = (d_ or {}).get('init') or ''
+                        if ini.startswith('lambda@') and ini[7:] in lam and (f, lam[ini[7:]]) not in out:
+                            out.append((f, lam[ini[7:]]))
     return out
 
 
@@ -165,19 +175,38 @@ def resume_all(ctx, db):
         ctx.paths(rid, len(trs))
         bad = None
         for tr in trs:
-            loops = [(i, it) for i, it in enumerate(tr) if it.k == 'branch' and it.term in ('WhileStmt', 'ForStmt', 'DoStmt')]
-            if not loops:
-                bad = bad or ('no loop', tr); continue
-            i, last = loops[-1]
-            ce = cond_event(tr, i)
-            if ce is None or norm(ce.get('callee') or '') != 'cocls::suspend_point::empty' or last.val is not True:
+            # the drain as a sequence of emptiness tests: every "not empty" answer is followed by exactly one pop and one enqueue before the
+            # next test; the function is left only after a test that answered "empty" (any loop form: while, do-while behind an if, for(;;)+break)
+            empties = [it for it in tr if it.k == 'call' and norm(it.get('callee') or '') == 'cocls::suspend_point::empty' and (it.get('recv') or '').startswith('param:')]
+            state = None      # None: nothing known, False: tested not empty (one handle may be taken), True: tested empty
+            npop = nenq = 0
+            def close_iteration(notempty):
+                if notempty and (npop, nenq) != (1, 1):
+                    return 'an iteration pops %d and enqueues %d' % (npop, nenq)
+                if not notempty and (npop or nenq):
+                    return 'a handle is taken although the suspend point was not known to be non-empty'
+                return None
+            for it in tr:
+                if it.k == 'branch' and any(tests(it, e_) for e_ in empties):
+                    nt = nullness(it)
+                    # branch value refers to empty(): True = empty
+                    val = bool(it.val)
+                    if state is not None:
+                        msg = close_iteration(state is False)
+                        if msg:
+                            bad = bad or (msg, tr)
+                    npop = nenq = 0
+                    state = val
+                elif it.k == 'call' and norm(it.get('callee')) == 'cocls::suspend_point::pop' and norm(it.get('fname') or '').startswith('cocls::thread_pool'):
+                    npop += 1
+                elif it.k == 'call' and norm(it.get('callee')) in ('cocls::thread_pool::enqueue', 'cocls::thread_pool::run_detached') and norm(it.get('fname') or '').startswith('cocls::thread_pool'):
+                    nenq += 1
+            if state is None:
+                bad = bad or ('the suspend point is never tested for emptiness', tr)
+            elif state is not True:
                 bad = bad or ('the loop can exit while the suspend point is not known to be empty (remaining coroutines run on the caller\'s thread)', tr)
-            for a, (j, br) in enumerate(loops[:-1]):
-                seg = tr[j:loops[a + 1][0]]
-                pops = [x for x in seg if x.k == 'call' and norm(x.get('callee')) == 'cocls::suspend_point::pop' and norm(x.get('fname') or '').startswith('cocls::thread_pool')]
-                enq = [x for x in seg if x.k == 'call' and norm(x.get('callee')) in ('cocls::thread_pool::enqueue', 'cocls::thread_pool::run_detached')]
-                if len(pops) != 1 or len(enq) != 1:
-                    bad = bad or ('an iteration pops %d and enqueues %d' % (len(pops), len(enq)), tr)
+            elif npop or nenq:
+                bad = bad or ('a handle is taken after the suspend point tested empty', tr)
         if f['key'] in seen and not bad:
             continue
         seen.add(f['key'])
@@ -306,7 +335,8 @@ def await_resume(ctx, db):
     H = htracer(db)
     enq = {e['fn_key'] for _, e in _enqueued_lambdas(db)}
     n = 0
-    for lf in lambdas_of(db, 'cocls::thread_pool::co_awaiter::await_suspend'):
+    cands = [lf for g_ in db.fns('cocls::thread_pool::co_awaiter::await_suspend')[:1] for h_ in helper_bodies(db, g_) for e_ in h_.events() if e_.k == 'lambda' for lf in db.closure_instances(h_, e_['fn_key'])]
+    for lf in cands or lambdas_of(db, 'cocls::thread_pool::co_awaiter::await_suspend'):
         if lf['key'] not in enq:
             continue          # the deleter lambda / other helpers
         n += 1
@@ -336,9 +366,11 @@ def run_resolves_once(ctx, db):
     PROM = ('cocls::promise::operator()', 'cocls::promise::set_value', 'cocls::promise::set_exception')
     cands = []
     H = htracer(db)
+    enq_keys = {e['fn_key'] for _, e in _enqueued_lambdas(db)}
     for f in db.all_instances():
-        if f.get('lambda') and f['nname'].startswith('cocls::thread_pool::run') and any(e.k == 'call' and norm(e.get('callee') or '') == 'std::get' for e in f.events()):
-            # the closure that calls the user function (std::get<0>(fn)) and - itself or through a helper of the pool - resolves the promise
+        if f.get('lambda') and f['nname'].startswith('cocls::thread_pool::run') and f['key'] in enq_keys and \
+                not any(e.k == 'call' and norm(e.get('callee') or '').startswith('cocls::async::') for e in f.events()):
+            # the queue item of run(fn): the enqueued closure that calls the user function and - itself or through a helper of the pool - resolves the promise
             if any(e.k == 'call' and norm(e.get('callee')) in PROM for e in f.events()) or any(it.k == 'call' and norm(it.get('callee')) in PROM for tr in H.traces(f) for it in tr):
                 cands.append(f)
     if not cands:
